@@ -276,3 +276,14 @@ def lift_api(beh, idx):
         tags.append("api_prealloc")
     return {"name": "E2-api-%d" % idx, "norm": "code", "universe": ["_id", "a", "b", "c", "zz"],
             "batches": batches, "ops": ops, "tags": tags}
+
+
+def lift_build(beh, idx):
+    """BuildAlgo catalogue batch -> built under every chunk mode, fully observed, persisted and reloaded."""
+    ops = []
+    for k, mode in enumerate([1, 2, 3, 5, 1024, 0]):
+        ops += [{"op": "build", "seg": k + 1, "batch": 0, "mode": mode}, {"op": "observe", "seg": k + 1, "level": "full"}]
+    ops += [{"op": "persist", "seg": 1, "file": 1}, {"op": "load", "file": 1, "seg": 9, "backing": "file"},
+            {"op": "observe", "seg": 9, "level": "full"}]
+    return {"name": "E2-build-%d" % beh["id"], "norm": "code" if idx % 2 == 0 else "invsqrt",
+            "universe": ["_id", "a", "b", "c", "nosuchfield"], "batches": [beh["batch"]], "ops": ops, "tags": ["e2build"]}
